@@ -1316,6 +1316,8 @@ class Sym:
             ex = self.expand_combinator(c, n, args, st)
             if ex is not None:
                 return ex
+        if callee == "core::bool::<impl bool>::then_some" and len(args) == 2:
+            return [(s1, ("ctor", SOME, (args[1],)) if b else ("ctor", NONE, ())) for s1, b in self.truth(args[0], st)]
         if callee and callee.endswith("::transpose") and callee.startswith(("core::result::Result::<", "core::option::Option::<")) and len(args) == 1:
             # Result<Option<T>, E> <-> Option<Result<T, E>>
             out = []
